@@ -229,7 +229,7 @@ pub fn prop(c: &Case, log: &mut CaseLog) -> Verdict {
 /// A two-file project: `main.asm` imports `lib.asm` in one of several ways; both files use the library's symbols.
 #[derive(Clone, Debug, Hash, PartialEq, Eq, Serialize, Deserialize)]
 pub struct MultiCase {
-    /// 0: `.import *`, 1: `.import * as lns`, 2: `.import libk1, libl0`, 3: `.import libl0` inside a scope
+    /// 0: `.import *`, 1: `.import * as lns`, 2: `.import libk1, libl0`, 3: the same with `as`, 4: imported twice (once in a scope)
     pub import_kind: u8,
     pub pad_main: u8,
     pub pad_lib: u8,
@@ -254,14 +254,16 @@ pub fn multi_project(c: &MultiCase) -> Project {
         lib.pop();
     }
     let mut main = String::new();
-    let q = if c.import_kind % 4 == 1 { "lns." } else { "" };
+    let q = if c.import_kind % 5 == 1 { "lns." } else { "" };
     // (kind 3: the library's symbols are imported under other names)
-    let (k, l) = if c.import_kind % 4 == 3 { ("mk1", "ml0") } else { ("libk1", "libl0") };
-    match c.import_kind % 4 {
+    let (k, l) = if c.import_kind % 5 == 3 { ("mk1", "ml0") } else { ("libk1", "libl0") };
+    match c.import_kind % 5 {
         0 => main.push_str(".import * from \"lib.asm\"\n"),
         1 => main.push_str(".import * as lns from \"lib.asm\"\n"),
         2 => main.push_str(".import libk1, libl0 from \"lib.asm\"\n"),
-        _ => main.push_str(".import libk1 as mk1, libl0 as ml0 from \"lib.asm\"\n"),
+        3 => main.push_str(".import libk1 as mk1, libl0 as ml0 from \"lib.asm\"\n"),
+        // (the library is imported twice: what it defines exists twice, at one place in the source)
+        _ => main.push_str(".import libk1, libl0 from \"lib.asm\"\nsecondq: {\n    .import libk1, libl0 from \"lib.asm\"\n}\n"),
     }
     main.push_str(&"\n".repeat(c.pad_main as usize % 3));
     main.push_str(&format!("{}lda #{}{}\n", im, q, k));
@@ -311,7 +313,7 @@ pub fn prop_multi(c: &MultiCase, log: &mut CaseLog) -> Verdict {
         Some((_, msgs)) if msgs.is_empty() => {}
         _ => return Verdict::fail("harness-project-does-not-build", format!("{:?}\n{:?}", proj.files, before)),
     }
-    let old_name = match (c.symbol % 4, c.import_kind % 4) {
+    let old_name = match (c.symbol % 4, c.import_kind % 5) {
         (2, 3) => "mk1",
         (3, 3) => "ml0",
         (s, _) if s % 2 == 0 => "libk1",
@@ -326,7 +328,7 @@ pub fn prop_multi(c: &MultiCase, log: &mut CaseLog) -> Verdict {
         }
     }
     let (at_file, at) = occ[((c.sel as u64 * occ.len() as u64) >> 32) as usize].clone();
-    log.label(format!("import-kind:{}", c.import_kind % 4));
+    log.label(format!("import-kind:{}", c.import_kind % 5));
     log.label(format!("requested-in:{}", at_file));
     let coincide = occ.iter().any(|(f, o)| occ.iter().any(|(g, q)| f != g && o == q));
     log.label_if(coincide, "same-range-in-both-files");
@@ -410,7 +412,7 @@ pub fn prop_multi(c: &MultiCase, log: &mut CaseLog) -> Verdict {
 }
 
 pub fn multi_strategy() -> impl Strategy<Value = MultiCase> {
-    (0u8..4, 0u8..3, 0u8..3, 0u8..4, 0u8..4, 0u8..4, any::<u32>()).prop_map(|(import_kind, pad_main, pad_lib, indent_main, indent_lib, symbol, sel)| MultiCase { import_kind, pad_main, pad_lib, indent_main, indent_lib, symbol, sel })
+    (0u8..5, 0u8..3, 0u8..3, 0u8..4, 0u8..4, 0u8..4, any::<u32>()).prop_map(|(import_kind, pad_main, pad_lib, indent_main, indent_lib, symbol, sel)| MultiCase { import_kind, pad_main, pad_lib, indent_main, indent_lib, symbol, sel })
 }
 
 pub fn multi_to_json(c: &MultiCase) -> Value {
